@@ -29,8 +29,12 @@ def one(job):
             repo = Repo(overlay=ov)
             mod = importlib.import_module(f"sa.rules.c{i:02d}")
             rep = Report(pid)
-            mod.run(repo, rep)
             known = {(k["rule"], k["function"], k["construct"]) for k in load_known(pid)}
+            try:
+                mod.run(repo, rep)
+            except AnalysisError:
+                if not any(f.key() not in known for f in rep.findings):
+                    raise
             for f in rep.findings:
                 if f.key() not in known:
                     out["fails"].append((pid, f.rule, f.function, f.construct[:80], f.message[:200]))
